@@ -110,3 +110,103 @@ def bag_reorder(h):
     s.elect(2, [3])                               # server 2 becomes leader of term 3 without the committed entry
     return s.case("bag_reorder", "bag delivery: an old heartbeat truncates a committed entry; leader of term 3 lacks it",
                   expect={"bag_violation": True})
+
+
+def figure8(h):
+    """Raft Figure 8 with three servers: S1 (term 2) and S3 (term 3) each append an unreplicated entry at index 1; S1 is re-elected
+    (term 4) and replicates its term-2 entry to S2: it is on a quorum but must NOT be committed by counting replicas. S3 is then elected
+    (term 5, its last entry has the higher term), overwrites index 1 on S2 and commits its own entries. If the term-2 entry had been
+    committed, StateMachineSafety / LeaderCompleteness fail here."""
+    p = {"n": 3, "nc": 2, "buf": 10, "fifo": True, "explorefail": True, "crashers": [], "keys": 2, "vals": 2}
+    s = Script(h, p)
+    apq_from = lambda j: (lambda m: m["mtype"] == "apq" and m["msource"] == j)
+    s.elect(1, [2])
+    s.client_request(19, ("put", 1, 1), 1)
+    s.deliver(1, lambda m: m["mtype"] == "cpq")                       # e2 @1 at S1 only
+    s.timeout(3, drop=[1, 2])                                           # S3: term 2, nobody hears
+    s.timeout(3)                                                        # S3: term 3, asks S1 and S2
+    s.deliver(2, lambda m: m["mtype"] == "rvq" and m["msource"] == 3 and m["mterm"] == 3)
+    s.drain(3, lambda m: m["mtype"] == "rvp")
+    s.do(("EBecomeLeader", 3, 0))                                       # S3 leader of term 3
+    s.client_request(20, ("put", 1, 2), 3)
+    s.deliver(3, lambda m: m["mtype"] == "cpq")                       # e3 @1 at S3 only
+    s.deliver(1, lambda m: m["mtype"] == "rvq" and m["msource"] == 3 and m["mterm"] == 3)   # S1 learns term 3, steps down, refuses; keeps e2
+    assert s.w.g["state"][1] == "follower" and len(s.w.g["log"][1]) == 1 and s.w.g["log"][1][0]["term"] == 2
+    # S1 re-elected in term 4 by S2; S3 hears the request, steps down and refuses
+    s.timeout(1)
+    s.deliver(2, lambda m: m["mtype"] == "rvq" and m["msource"] == 1 and m["mterm"] == 4)
+    s.deliver(3, lambda m: m["mtype"] == "rvq" and m["msource"] == 1 and m["mterm"] == 4)
+    s.drain(1, lambda m: m["mtype"] == "rvp")
+    s.do(("EBecomeLeader", 1, 0))
+    assert s.w.g["state"][1] == "leader" and s.w.g["currentTerm"][1] == 4 and s.w.g["state"][3] == "follower"
+    for _ in range(2):                                                  # reject (prev=1), then accept prev=0 entries=<<e2>>
+        s.append_entries(1, [2])
+        s.drain(2, apq_from(1))
+        s.drain(1, lambda m: m["mtype"] == "app")
+    assert s.w.g["matchIndex"][1][2] == 1, s.w.g["matchIndex"]
+    s.do(("EAdvance", 1)); s.do(("EApply", 1))                          # e2 is on {S1,S2} but has term 2 <> 4: must not be committed
+    assert s.w.g["commitIndex"][1] == 0 and s.w.g["log"][2][0]["term"] == 2
+    # S3 (last entry of term 3) is elected in term 5 by S2 and overwrites index 1 there
+    s.timeout(3, drop=[1])
+    s.deliver(2, lambda m: m["mtype"] == "rvq" and m["msource"] == 3 and m["mterm"] == 5)
+    s.drain(3, lambda m: m["mtype"] == "rvp")
+    s.do(("EBecomeLeader", 3, 0))
+    assert s.w.g["state"][3] == "leader" and s.w.g["currentTerm"][3] == 5
+    for _ in range(2):
+        s.append_entries(3, [2])
+        s.drain(2, apq_from(3))
+        s.drain(3, lambda m: m["mtype"] == "app")
+    s.do(("EClientTimeout", 20, False, 0, True)); s.do(("EClientSnd", 20, 3, 0, True))   # a term-5 entry at index 2
+    s.deliver(3, lambda m: m["mtype"] == "cpq")
+    s.append_entries(3, [2])
+    s.drain(2, apq_from(3))
+    s.drain(3, lambda m: m["mtype"] == "app")
+    s.do(("EAdvance", 3)); s.do(("EApply", 3)); s.do(("EApply", 3))
+    assert s.w.g["commitIndex"][3] == 2, s.w.g["commitIndex"]
+    return s.case("figure8", "Raft Figure 8: an old-term entry on a quorum is not committed by counting replicas; a later leader overwrites it")
+
+
+def deposed_leader(h):
+    """a deposed leader holding an unreplicated entry at index 1 rejoins as follower: AppendEntries of the new leader (which has
+    committed its own entry at index 1) must replace the conflicting entry before it is acknowledged/applied"""
+    p = {"n": 3, "nc": 2, "buf": 10, "fifo": True, "explorefail": True, "crashers": [], "keys": 2, "vals": 2}
+    s = Script(h, p)
+    s.elect(1, [2])
+    s.client_request(19, ("put", 1, 1), 1)
+    s.deliver(1, lambda m: m["mtype"] == "cpq")                       # e2 @1 at S1 only
+    s.timeout(3, drop=[1, 2])                                           # S3: term 2, nobody hears
+    s.elect(3, [2])                                                     # term 3 without S1
+    s.client_request(20, ("put", 1, 2), 3)
+    s.deliver(3, lambda m: m["mtype"] == "cpq")                       # e3 @1 at S3
+    s.append_entries(3, [2])
+    s.drain(2, lambda m: m["mtype"] == "apq" and m["msource"] == 3)
+    s.drain(3, lambda m: m["mtype"] == "app")
+    s.do(("EAdvance", 3)); s.do(("EApply", 3))                          # e3 committed on {S3,S2}
+    assert s.w.g["commitIndex"][3] == 1
+    s.append_entries(3, [1, 2])                                         # prev = 0, entries = <<e3>>, commit = 1 reaches the deposed leader
+    s.drain(1, lambda m: m["mtype"] == "apq" and m["msource"] == 3)
+    s.drain(2, lambda m: m["mtype"] == "apq" and m["msource"] == 3)
+    s.drain(3, lambda m: m["mtype"] == "app")
+    assert s.w.g["commitIndex"][1] == 1 and s.w.g["log"][1] == s.w.g["log"][3], (s.w.g["commitIndex"], s.w.g["log"])
+    return s.case("deposed_leader", "a deposed leader's conflicting unreplicated entry is replaced when it rejoins as follower")
+
+
+def split_vote(h):
+    """two candidates of the same term: S1 (candidate, has voted for itself) must refuse S2; S3 grants only the first request.
+    If S1 granted, S1 {1,3} and S2 {2,1} would both be leader of term 2."""
+    p = {"n": 3, "nc": 1, "buf": 10, "fifo": True, "explorefail": True, "crashers": [], "keys": 1, "vals": 2}
+    s = Script(h, p)
+    s.timeout(1)
+    s.timeout(2)
+    s.deliver(3, lambda m: m["mtype"] == "rvq" and m["msource"] == 1)     # S3 votes for S1
+    s.deliver(1, lambda m: m["mtype"] == "rvq" and m["msource"] == 2)     # S1 is a candidate of term 2: must refuse S2
+    s.drain(1, lambda m: m["mtype"] == "rvp")
+    s.drain(2, lambda m: m["mtype"] == "rvp")
+    s.do(("EBecomeLeader", 1, 0))
+    s.do(("EBecomeLeader", 2, 0), expect=None)                               # aborts: S2 holds only its own vote
+    s.deliver(3, lambda m: m["mtype"] == "rvq" and m["msource"] == 2)     # S3 has voted already: refuses
+    s.deliver(2, lambda m: m["mtype"] == "rvq" and m["msource"] == 1)
+    s.drain(2, lambda m: m["mtype"] == "rvp")
+    s.do(("EBecomeLeader", 2, 1), expect=None)
+    assert s.w.g["state"][1] == "leader" and s.w.g["state"][2] != "leader"
+    return s.case("split_vote", "two candidates of one term: a candidate refuses the other's request (it voted for itself)")
